@@ -64,6 +64,8 @@ func main() {
 			usage()
 		}
 		os.Exit(runReplay(os.Args[2]))
+	case "c18solo":
+		os.Exit(C18Solo(os.Args[2]))
 	case "racebodies":
 		os.Exit(RaceBodies())
 	case "list":
